@@ -55,6 +55,14 @@ Theorem C05_model_cancel_sound :
     MdlSpecX p (minputs_after (firstn i ops),
                 ext_after_c (firstn (S i) ops) (firstn (S i) (mexecs_cancel_f fuel0 4000 p init_state ops))) n z.
 Proof. exact MdlCancel.model_cancel_sound_x. Qed.
+Theorem C05_model_cancel_sound_any_task_order :
+  forall tord bord p ops i n r z, order_ok tord -> order_ok bord ->
+    wf_model_x p -> mcsessions_fuelled_o tord bord fuel0 4000 p ops i -> mpartials_ok_o tord bord fuel0 4000 p ops i ->
+    nth_error ops i = Some (MUser (OQuery n)) ->
+    nth_error (mrun_cancel_fo tord bord fuel0 4000 p init_state ops) i = Some (Some r) -> r_out r = RValue z ->
+    MdlSpecX p (minputs_after (firstn i ops),
+                ext_after_c (firstn (S i) ops) (firstn (S i) (mexecs_cancel_fo tord bord fuel0 4000 p init_state ops))) n z.
+Proof. exact MdlCancel.model_cancel_sound_x_o. Qed.
 Theorem C05_model_cancel_user_step_is_step : forall p s o,
   mstep_cancel_f fuel0 4000 p s (MUser o) = (let '(s', r) := step p s o in (s', Some r)).
 Proof. exact MdlCancel.mstep_cancel_user. Qed.
@@ -88,6 +96,7 @@ Print Assumptions C05_core_cancel_sound.
 Print Assumptions C05_core_cancel_no_panic.
 Print Assumptions C05_core_cancel_once.
 Print Assumptions C05_model_cancel_sound.
+Print Assumptions C05_model_cancel_sound_any_task_order.
 Print Assumptions C05_model_cancel_user_step_is_step.
 Print Assumptions C05_model_cancel_side_condition_needed.
 Print Assumptions C05_model_cancel_once.
